@@ -189,6 +189,9 @@ BIAS_KINDS = {
     "walls": dict(kw="harmonicWalls", nv=1, ok=lambda v: v["scalar"] and not v["periodic"]),
     "linear": dict(kw="linear", nv=1, ok=lambda v: v["scalar"] and not v["periodic"]),
     "abf": dict(kw="abf", nv=1, ok=lambda v: v["scalar"] and v["tf"]),
+    # two ABF biases that both ask their variable to hide the Jacobian force: deleting one must not switch it off for the other
+    "abfhj": dict(kw="abf", nv=1, ok=lambda v: v["name"] in ("va", "vb")),
+    "abfhk": dict(kw="abf", nv=1, ok=lambda v: v["name"] in ("va", "vb")),
     "meta": dict(kw="metadynamics", nv=1, ok=_ok_scalar),
     "metang": dict(kw="metadynamics", nv=1, ok=_ok_scalar),
     "meta2": dict(kw="metadynamics", nv=2, ok=_ok_scalar),
@@ -227,6 +230,8 @@ def bias_text(kind, vs):
         body = "  centers %s\n  forceConstant 0.75\n" % c
     elif kind == "abf":
         body = "  fullSamples 2\n"
+    elif kind in ("abfhj", "abfhk"):
+        body = "  fullSamples 3\n  hideJacobian on\n"
     elif kind == "meta":
         body = "  hillWeight 0.25\n  newHillFrequency 2\n  hillWidth 2.0\n"
     elif kind == "metang":
@@ -1165,7 +1170,7 @@ def run_program(job):
         # previous-step total forces contain whatever Colvars applied at the previous step, deleted objects included
         tainted.update(v for v in survivors_v if v == "vf")
         for b in survivors_b:
-            if b.startswith("babf_"):
+            if b.startswith("babf"):
                 tainted.update(bias_vars(b) or [])
     if ctrl != prog:
         preC = os.path.join(wd, "C")
